@@ -86,6 +86,7 @@ def kv(store, k, ts=0):
 
 def ref_run(script, eng):
     store, batch, res = {}, [], []
+    others, cur = {}, 0      # other live batch objects: slot -> pending operations (independent values)
     for st in script.split(";"):
         f = st.split(" ")
         c = f[0]
@@ -97,7 +98,16 @@ def ref_run(script, eng):
             batch.append(("R", unh(f[1]), unh(f[2])))
         elif c == "M":
             batch.append(("M", unh(f[1]), unh(f[2])))
-        elif c in ("C", "c"):
+        elif c == "B":
+            others[cur] = batch
+            cur = int(f[1])
+            batch = others.pop(cur, [])
+        elif c == "Y":
+            if int(f[1]) in others:
+                others[int(f[1])] = []
+        elif c == "Z":
+            others.pop(int(f[1]), None)
+        elif c in ("C", "c", "Q"):
             store, ok = apply_batch(store, batch)
             batch = []
             res.append("ok" if ok else "err")
@@ -193,7 +203,7 @@ def oracle_x(xcases, impl):
 # ---------------------------------------------------------------------------------------------
 def read_steps(script):
     """the steps that print a result, in order"""
-    return [s for s in script.split(";") if s[0] in "CcGETIJK"]
+    return [s for s in script.split(";") if s[0] in "CcQGETIJK"]
 
 
 def judged(step):
@@ -472,10 +482,10 @@ def run(ctx):
         else:
             runs.append(("replay", "-replay %s" % p))
     elif quick:
-        runs.append(("main", "-seed %d -n 1500 -sweep 4 -nlarge 12 -nmulti 300 -npfx 150 -rockpct 35 -engines mem,pebble,rocksdb -corpus %s" % (ctx.seed, corpus)))
-        runs.append(("memvariants", "-seed %d -n 400 -sweep 1 -nlarge 6 -nmulti 50 -npfx 30 -engines membtree,memskip -corpus %s" % (ctx.seed + 7919, corpus)))
+        runs.append(("main", "-seed %d -n 1500 -sweep 4 -nlarge 12 -nmulti 300 -npfx 150 -nover 300 -rockpct 35 -engines mem,pebble,rocksdb -corpus %s" % (ctx.seed, corpus)))
+        runs.append(("memvariants", "-seed %d -n 400 -sweep 1 -nlarge 6 -nmulti 50 -npfx 30 -nover 60 -engines membtree,memskip -corpus %s" % (ctx.seed + 7919, corpus)))
     else:
-        runs.append(("main", "-seed %d -n 22000 -sweep 32 -nlarge 300 -nmulti 6000 -npfx 4000 -rockpct 50 -engines mem,pebble,rocksdb,membtree,memskip -corpus %s"
+        runs.append(("main", "-seed %d -n 22000 -sweep 32 -nlarge 300 -nmulti 6000 -npfx 4000 -nover 5000 -rockpct 50 -engines mem,pebble,rocksdb,membtree,memskip -corpus %s"
                      % (ctx.seed, corpus)))
 
     all_mism, all_fail, total, hist_all, samples, distinct = [], [], 0, {}, [], set()
@@ -541,7 +551,7 @@ def run(ctx):
         hist_all.update(khist)
 
     def search():
-        d2, err = run_harness(ctx, "search", "-seed %d -n 15000 -sweep 12 -nlarge 100 -nmulti 3000 -npfx 1000 -rockpct 50 -engines mem,pebble,rocksdb,membtree,memskip"
+        d2, err = run_harness(ctx, "search", "-seed %d -n 15000 -sweep 12 -nlarge 100 -nmulti 3000 -npfx 1000 -nover 1500 -rockpct 50 -engines mem,pebble,rocksdb,membtree,memskip"
                               % (ctx.seed + 1000003), model=False)
         if d2 is None:
             return []
@@ -586,6 +596,8 @@ def run(ctx):
         "min_engine_key_len_written_by_data_layer). The empty key is still exercised at engine level for reads, writes and iteration, but "
         "flush/compaction is not combined with the empty key: the pebble version pinned by /repo (2020-06) cannot write a table file that starts with "
         "the empty user key and retries the flush forever (library defect on a key the data layer never writes; reported, not part of the verdict)",
+        "batch objects do not share state (the model treats them as independent values): checked by the overlapping-lifetime scripts; only "
+        "one batch object holds uncommitted operations at a time (the mem engine's radix batch holds the writer lock while it has any)",
         "DeleteRange is issued with start <= end; IteratorOpts.IgnoreDel (raft log storage only) is not used",
         "concurrent mode: one writer, three readers, uncontrolled goroutine schedule; a replay of a concurrent finding re-runs the same batches but "
         "not the same interleaving. The skiplist index (not selectable) applies a batch op by op without a snapshot and is excluded there",
